@@ -49,6 +49,8 @@ SRC = "exetera/core/operations.py"
 # kernel -> positional parameter types (the Python source is untyped; numba infers these from the call sites).
 #   int | bool | arr (integer array / typed list) | barr (boolean array) | opt_arr (array or None) |
 #   arr2 (2-D integer array: the list of its rows; `a[k]` is row k, `for row in a`, `len(a)` the number of rows)
+#   oarr (KT4B: an array / typed list or None, tested with `is None` / `is not None` ANYWHERE: a value and a presence flag, like
+#         opt_int; a typed list of arrays is an arr2)
 WHITELIST = [
     ("apply_spans_count", ["arr", "opt_arr"]),
     ("apply_spans_first", ["arr", "arr", "opt_arr"]),
@@ -112,11 +114,18 @@ WHITELIST = [
     ("ordered_get_last_as_filter", ["arr"]),
     ("chunks", ["int", "int"]),
     ("streaming_sort_partial", ["arr", "arr", "arr2", "arr2", "arr", "arr"]),
+    # KT4B
+    ("ordered_generate_journalling_indices", ["arr", "arr"]),
+    ("get_indexed_string_unique", ["arr", "arr", "arr2", "oarr", "oarr", "oarr"]),
+    ("isin_indexed_string_speedup", ["arr2", "arr", "arr"]),
+    ("safe_map_indexed_values", ["arr", "arr", "arr", "barr", "oarr"]),
 ]
 
 LEAN_T = {"int": "Int", "bool": "Bool", "arr": "List Int", "barr": "List Bool", "opt_arr": "Option (List Int)",
-          "arr2": "List (List Int)", "opt_int": "Option Int"}
-DEFAULT = {"int": "0", "bool": "false", "arr": "[]", "barr": "[]", "arr2": "[]"}
+          "arr2": "List (List Int)", "opt_int": "Option Int", "oarr": "Option (List Int)", "set": "List Int"}
+DEFAULT = {"int": "0", "bool": "false", "arr": "[]", "barr": "[]", "arr2": "[]", "set": "[]"}
+PRESENT = {"opt_int": "int", "oarr": "arr"}      # optional parameters carried as a value and a presence flag
+TRANSLATED = {}                                  # kernels translated so far in this run (a later kernel may call them)
 ELEM = {"arr": "int", "barr": "bool", "arr2": "arr"}        # arr2: a 2-D integer array, passed as the list of its rows
 
 
@@ -234,10 +243,10 @@ class Kernel:
         self.ptypes = list(ptypes)
         self.body = rewrite_continue(drop_message_strings(strip_doc(fn.body)))
         self.rename()
-        self.env = {f"p{k}": ({"opt_arr": "arr", "opt_int": "int"}.get(t, t)) for k, t in enumerate(ptypes)}
+        self.env = {f"p{k}": ({"opt_arr": "arr", "opt_int": "int", "oarr": "arr"}.get(t, t)) for k, t in enumerate(ptypes)}
         self.opt = {f"p{k}" for k, t in enumerate(ptypes) if t == "opt_arr"}    # optional parameters (static)
         # optional scalars (`x=None`, tested with `x is None` / `x is not None` anywhere): a value and a presence flag
-        self.optint = {f"p{k}" for k, t in enumerate(ptypes) if t == "opt_int"}
+        self.optint = {f"p{k}" for k, t in enumerate(ptypes) if t in PRESENT}
         self.loops = {}          # id(node) -> (k, has_break)
         self.number_loops()
         self.find_yields()
@@ -288,6 +297,10 @@ class Kernel:
                     stored.add(n.value.id)
                 if isinstance(n, ast.Name) and isinstance(n.ctx, ast.Store) and n.id in params:
                     rebound.add(n.id)
+                if isinstance(n, ast.Expr) and isinstance(n.value, ast.Call) and isinstance(n.value.func, ast.Attribute) \
+                        and n.value.func.attr in ("append", "extend") and isinstance(n.value.func.value, ast.Name) \
+                        and n.value.func.value.id in params:
+                    stored.add(n.value.func.value.id)           # a typed-list parameter the kernel appends to
         rebound -= self.opt_params_static()
         if stored & rebound:
             raise Unsupported("store into a parameter that is also re-assigned")
@@ -465,6 +478,12 @@ class Kernel:
                 isinstance(n.left, ast.Name) and n.left.id in self.optint and is_none(n.comparators[0]):
             flag = f"s.{n.left.id}_some"
             return "bool", (f"(!{flag})" if isinstance(n.ops[0], ast.Is) else flag), []
+        if isinstance(n, ast.Compare) and len(n.ops) == 1 and isinstance(n.ops[0], (ast.In, ast.NotIn)):
+            (tl, xl, bl), (tr, xr, br) = self.expr(n.left, defined), self.expr(n.comparators[0], defined)
+            if tl != "int" or tr != "set":
+                raise Unsupported(f"membership test of a {tl} in a {tr}")
+            mem = f"({xr}.contains {xl})"
+            return "bool", (mem if isinstance(n.ops[0], ast.In) else f"(!{mem})"), bl + br
         if isinstance(n, ast.Compare):
             operands = [n.left] + list(n.comparators)
             parts = [self.expr(o, defined) for o in operands]
@@ -550,6 +569,12 @@ class Kernel:
             raise Unsupported(f"subscript with an index of type {ti}")
         if isinstance(n, ast.Call):
             return self.call(n, defined)
+        if isinstance(n, ast.Set):
+            # a set of integers, only ever tested for membership / added to: the list of its elements (`in` is `contains`)
+            parts = [self.expr(e, defined) for e in n.elts]
+            if any(p[0] != "int" for p in parts):
+                raise Unsupported("set literal with non-integer elements")
+            return "set", "[" + ", ".join(p[1] for p in parts) + "]", [b for p in parts for b in p[2]]
         if isinstance(n, ast.List):
             # a list literal of integers (`[]` is taken to be a list of integers: a later append of anything else fails)
             parts = [self.expr(e, defined) for e in n.elts]
@@ -635,6 +660,30 @@ class Kernel:
                 raise Unsupported(f"{n.func.attr} of a {t}")
             tmp = self.fresh()
             return "int", tmp, b + [(tmp, f"{n.func.attr}E {x}")]
+        if f in ("np.asarray", "numpy.asarray") and len(n.args) == 1 and len(n.keywords) == 1 and n.keywords[0].arg == "dtype" \
+                and ast.unparse(n.keywords[0].value) in ("'bool'", "bool", "np.bool_", "numpy.bool_") \
+                and isinstance(n.args[0], ast.BinOp) and isinstance(n.args[0].op, ast.Mult) \
+                and isinstance(n.args[0].left, ast.List) and len(n.args[0].left.elts) == 1 \
+                and isinstance(n.args[0].left.elts[0], ast.Constant) and isinstance(n.args[0].left.elts[0].value, bool):
+            # `np.asarray([False] * n, dtype='bool')`: n copies (none for n ≤ 0, as Python's list repetition)
+            t, x, b = self.expr(n.args[0].right, defined)
+            if t != "int":
+                raise Unsupported("list repetition by a non-integer")
+            v = "true" if n.args[0].left.elts[0].value else "false"
+            return "barr", f"(List.replicate ({x}).toNat {v})", b
+        if f in TRANSLATED and f != self.name and not n.keywords:
+            # a call of another translated kernel (no `while` loop, stores into none of its arguments, one result)
+            callee = TRANSLATED[f]
+            if callee.has_fuel or callee.mutated or len(callee.ret_types) != 1 or len(n.args) != len(callee.ptypes) or \
+                    any(t not in ("int", "bool", "arr", "barr", "arr2") for t in callee.ptypes):
+                raise Unsupported(f"call of the kernel `{f}` (it has a while loop / writes into its arguments / optional parameters)")
+            parts = [self.expr(a, defined) for a in n.args]
+            if [p[0] for p in parts] != list(callee.ptypes):
+                raise Unsupported(f"call of the kernel `{f}` with arguments of type {[p[0] for p in parts]}")
+            tmp = self.fresh()
+            return callee.ret_types[0], tmp, [b for p in parts for b in p[2]] + \
+                [(tmp, f"{f}.run " + " ".join(p[1] if p[1].startswith("(") or p[1].replace(".", "").replace("_", "").isalnum()
+                                              else f"({p[1]})" for p in parts))]
         raise Unsupported(f"call of `{f}`")
 
     @staticmethod
@@ -699,13 +748,23 @@ class Kernel:
             if len(st.targets) != 1:
                 raise Unsupported("chained assignment")
             tg = st.targets[0]
+            if isinstance(tg, ast.Tuple) and isinstance(st.value, ast.Tuple) and len(tg.elts) == len(st.value.elts) and \
+                    all(isinstance(e, ast.Name) for e in tg.elts) and len({e.id for e in tg.elts}) == len(tg.elts):
+                # `a, b = e1, e2`: every right-hand side is evaluated (in the old state) before any name is bound
+                parts = [self.expr(e, defined) for e in st.value.elts]
+                upd = []
+                for e, (t, x, _) in zip(tg.elts, parts):
+                    self.assign_name(e.id, t, x)
+                    upd.append(f"{e.id} := {x}" + (f", {e.id}_def := true" if e.id in self.flagged else ""))
+                line = f"let s := {{ s with {', '.join(upd)} }}"
+                return self.wrap([b for p in parts for b in p[2]], line).split("\n"), defined | {e.id for e in tg.elts}, False
             t, x, b = self.expr(st.value, defined)
             if isinstance(tg, ast.Name):
                 line = self.assign_name(tg.id, t, x)
                 return self.wrap(b, line).split("\n"), defined | {tg.id}, False
             if isinstance(tg, ast.Subscript) and isinstance(tg.value, ast.Name):
                 tb_, xb_, bb_ = self.var(tg.value.id, defined)
-                if tb_ not in ELEM or bb_:
+                if tb_ not in ELEM or (bb_ and tg.value.id not in self.optint):
                     raise Unsupported("store into something that is not a bound array")
                 a = tg.value.id
                 site = lean_str(ast.unparse(tg))
@@ -725,16 +784,16 @@ class Kernel:
                                 raise Unsupported("slice bound that is not an integer")
                             b = b + bi
                             bounds.append(f"(some {xi})")
-                    b = b + [(tmp, f"setSliceE {xb_} {bounds[0]} {bounds[1]} {x}")]
+                    b = b + bb_ + [(tmp, f"setSliceE {xb_} {bounds[0]} {bounds[1]} {x}")]
                 elif self.neg_const(tg.slice) is not None:
                     if t != ELEM[tb_]:
                         raise Unsupported(f"store of a {t} into a {tb_}")
-                    b = b + [(tmp, f"setIdxNegE {xb_} {self.neg_const(tg.slice)} {x} {site}")]
+                    b = b + bb_ + [(tmp, f"setIdxNegE {xb_} {self.neg_const(tg.slice)} {x} {site}")]
                 else:
                     ti, xi, bi = self.expr(tg.slice, defined)
                     if ti != "int" or t != ELEM[tb_]:
                         raise Unsupported(f"store of a {t} at an index of type {ti} into a {tb_}")
-                    b = b + bi + [(tmp, f"setIdxE {xb_} {xi} {x} {site}")]
+                    b = b + bi + bb_ + [(tmp, f"setIdxE {xb_} {xi} {x} {site}")]
                 return self.wrap(b, f"let s := {{ s with {a} := {tmp} }}").split("\n"), defined, False
             raise Unsupported(f"assignment target {type(tg).__name__}")
         if isinstance(st, ast.AugAssign) and isinstance(st.target, ast.Subscript) and isinstance(st.target.value, ast.Name) and \
@@ -746,6 +805,23 @@ class Kernel:
                                   slice=ast.Name(id=st.target.slice.id, ctx=ast.Load()), ctx=ast.Store())
             return self.simple(ast.Assign(targets=[store], value=ast.BinOp(left=load, op=st.op, right=st.value)), defined, top)
         if isinstance(st, ast.AugAssign):
+            if isinstance(st.target, ast.Subscript) and isinstance(st.target.value, ast.Name) and \
+                    not isinstance(st.target.slice, (ast.Slice, ast.Tuple)) and self.neg_const(st.target.slice) is None and \
+                    isinstance(st.op, (ast.Add, ast.Sub, ast.Mult)):
+                # `a[j] += e`: `a`, `j` evaluated once, `a[j]` loaded, then `e`, then the store
+                a = st.target.value.id
+                tb_, xb_, bb_ = self.var(a, defined)
+                if tb_ != "arr" or (bb_ and a not in self.optint):
+                    raise Unsupported("augmented assignment to an entry of something that is not a bound integer array")
+                ti, xi, bi = self.expr(st.target.slice, defined)
+                te, xe, be = self.expr(st.value, defined)
+                if ti != "int" or te != "int":
+                    raise Unsupported("augmented assignment to a subscript with non-integer index / operand")
+                site = lean_str(ast.unparse(st.target))
+                old, new = self.fresh(), self.fresh()
+                o = {ast.Add: "+", ast.Sub: "-", ast.Mult: "*"}[type(st.op)]
+                binds = bb_ + bi + [(old, f"idxE {xb_} {xi} {site}")] + be + [(new, f"setIdxE {xb_} {xi} ({old} {o} {xe}) {site}")]
+                return self.wrap(binds, f"let s := {{ s with {a} := {new} }}").split("\n"), defined, False
             if not isinstance(st.target, ast.Name):
                 raise Unsupported("augmented assignment to a subscript")
             load = ast.Name(id=st.target.id, ctx=ast.Load())
@@ -764,12 +840,25 @@ class Kernel:
                     c.func.attr in ("append", "extend") and len(c.args) == 1 and not c.keywords):
                 a = c.func.value.id
                 ta, xa, ba = self.var(a, defined)
+                if ba and a in self.optint and ta in ELEM:
+                    # a typed-list parameter that may be None: `None.append` is an AttributeError, raised before the argument
+                    # is evaluated
+                    ba = [(xa, f"if s.{a}_some then .ok s.{a} else .error (.other {lean_str('AttributeError')})")]
                 t, x, b = self.expr(c.args[0], defined)
                 want = ELEM.get(ta) if c.func.attr == "append" else ta
-                if ta not in ELEM or t != want or ba:
+                if ta not in ELEM or t != want or (ba and a not in self.optint):
                     raise Unsupported(f"{c.func.attr} of a {t} to a {ta}")
+                b = ba + b
                 rhs = f"({xa} ++ [{x}])" if c.func.attr == "append" else f"({xa} ++ {x})"
                 return self.wrap(b, f"let s := {{ s with {a} := {rhs} }}").split("\n"), defined, False
+            if (isinstance(c, ast.Call) and isinstance(c.func, ast.Attribute) and isinstance(c.func.value, ast.Name) and
+                    c.func.attr == "add" and len(c.args) == 1 and not c.keywords):
+                a = c.func.value.id
+                ta, xa, ba = self.var(a, defined)
+                t, x, b = self.expr(c.args[0], defined)
+                if ta != "set" or t != "int" or ba:
+                    raise Unsupported(f"add of a {t} to a {ta}")
+                return self.wrap(b, f"let s := {{ s with {a} := ({x} :: {xa}) }}").split("\n"), defined, False
             raise Unsupported("expression statement " + ast.unparse(c)[:40])
         if isinstance(st, ast.Raise):
             exc = st.exc.func if isinstance(st.exc, ast.Call) else st.exc
@@ -869,11 +958,17 @@ class Kernel:
             raise Unsupported("return without a value")
         elts = ret.value.elts if isinstance(ret.value, ast.Tuple) else [ret.value]
         parts = [self.expr(e, d) for e in elts]
-        types = [p[0] for p in parts] + [self.var(p, d)[0] for p in self.mutated]
+        types = [p[0] for p in parts] + [self.mut_part(p, d)[0] for p in self.mutated]
         if self.ret_types is not None and self.ret_types != types:
             raise Unsupported("return statements of different types")
         self.ret_types = types
         return parts
+
+    def mut_part(self, p, d):
+        """final contents of a parameter the kernel wrote into; a parameter that may be None is returned as an Option"""
+        if p in self.optint:
+            return "oarr", f"(if s.{p}_some then some s.{p} else none)", []
+        return self.var(p, d)
 
     def loop_return_term(self, ret, d):
         """`return E` inside a loop: the value goes into the result slots `rv<j>`, the flag `ret` stops every enclosing loop
@@ -906,6 +1001,36 @@ class Kernel:
         fuel_p = " (fuel : Nat)" if inner_while else ""
         fuel_a = " fuel" if inner_while else ""
         doc = f"/-- loop L{k}: `{self.src_loop_text[id(st)]}` -/"
+        if isinstance(st, ast.For) and isinstance(st.target, ast.Tuple) and len(st.target.elts) == 2 and \
+                all(isinstance(e, ast.Name) for e in st.target.elts) and st.target.elts[0].id != st.target.elts[1].id and \
+                isinstance(st.iter, ast.Call) and ast.unparse(st.iter.func) == "enumerate" and len(st.iter.args) == 1 and \
+                not st.iter.keywords and isinstance(st.iter.args[0], ast.Name):
+            # `for j, x in enumerate(xs)`: the pairs (x, j) of the array as it is when the loop starts; the body must not
+            # touch `xs` (otherwise Python would iterate over the changed list)
+            xs = st.iter.args[0].id
+            for b_ in st.body:
+                for m in ordered_nodes(b_):
+                    if (isinstance(m, ast.Name) and m.id == xs and isinstance(m.ctx, ast.Store)) or \
+                            (isinstance(m, ast.Subscript) and isinstance(m.ctx, ast.Store) and isinstance(m.value, ast.Name)
+                             and m.value.id == xs) or \
+                            (isinstance(m, ast.Attribute) and isinstance(m.value, ast.Name) and m.value.id == xs):
+                        raise Unsupported("the body of an enumerate loop changes the list it iterates over")
+            t, x, binds = self.expr(st.iter.args[0], defined)
+            if t not in ELEM:
+                raise Unsupported("enumerate of something that is not an array")
+            vj, vx = st.target.elts[0].id, st.target.elts[1].id
+            for v, vt in ((vj, "int"), (vx, ELEM[t])):
+                if v in self.env and self.env[v] != vt:
+                    raise Unsupported(f"`{self.orig[v]}` is assigned values of type {self.env[v]} and {vt}")
+                self.env[v] = vt
+            head = f"forEachB (List.zipIdx {x}) {stop_fn}" if stops else f"forEachE (List.zipIdx {x})"
+            body, _ = self.block(st.body, defined | {vj, vx}, st)
+            self.defs.append(f"{doc}\ndef body_L{k}{fuel_p} (s : St) : Except Err St :=\n{ind(body, 2)}")
+            flag = "".join(f", {v}_def := true" for v in (vj, vx) if v in self.flagged) + (f", cnt{k} := false" if has_cont else "")
+            term = f"{head} (fun k s => body_L{k}{fuel_a} {{ s with {vj} := (k.2 : Int), {vx} := k.1{flag} }}) s"
+            if has_break:
+                term = f"bindE ({term}) fun s =>\n.ok {{ s with brk{k} := false }}"
+            return self.wrap(binds, term), defined
         if isinstance(st, ast.For):
             if not isinstance(st.target, ast.Name):
                 raise Unsupported("for with a tuple target")
@@ -1007,8 +1132,8 @@ class Kernel:
         fuel = self.has_while(self.body)
         fields = []
         for k, t in enumerate(self.ptypes):
-            fields.append(f"  p{k} : {LEAN_T[{'opt_arr': 'arr', 'opt_int': 'int'}.get(t, t)]}")
-            if t == "opt_int":
+            fields.append(f"  p{k} : {LEAN_T[{'opt_arr': 'arr', 'opt_int': 'int', 'oarr': 'arr'}.get(t, t)]}")
+            if t in PRESENT:
                 fields.append(f"  p{k}_some : Bool")
         for v in self.locals:
             fields.append(f"  {v} : {LEAN_T[self.env[v]]}")
@@ -1030,7 +1155,8 @@ class Kernel:
         init = []
         for k, t in enumerate(self.ptypes):
             init.append(f"p{k} := " + (f"p{k}.getD []" if t == "opt_arr" else f"p{k}.getD 0, p{k}_some := p{k}.isSome"
-                                       if t == "opt_int" else f"p{k}"))
+                                       if t == "opt_int" else f"p{k}.getD [], p{k}_some := p{k}.isSome" if t == "oarr"
+                                       else f"p{k}"))
         for v in self.locals:
             init.append(f"{v} := {DEFAULT[self.env[v]]}")
             if v in self.flagged:
@@ -1066,13 +1192,13 @@ class Kernel:
             return ".ok " + (vals[0] if len(vals) == 1 else "(" + ", ".join(vals) + ")")
         if isinstance(ret.value, ast.Tuple) and not ret.value.elts:
             parts = []                                              # a function without `return`
-            types = [self.var(p, d)[0] for p in self.mutated]
+            types = [self.mut_part(p, d)[0] for p in self.mutated]
             if self.ret_types is not None and self.ret_types != types:
                 raise Unsupported("return statements of different types")
             self.ret_types = types
         else:
             parts = self.ret_parts(ret, d)
-        parts = parts + [self.var(p, d) for p in self.mutated]
+        parts = parts + [self.mut_part(p, d) for p in self.mutated]
         binds = [b for p in parts for b in p[2]]
         rterm = parts[0][1] if len(parts) == 1 else "(" + ", ".join(p[1] for p in parts) + ")"
         return self.wrap(binds, f".ok {rterm}")
@@ -1097,19 +1223,21 @@ class Kernel:
     def dispatch_arm(self):
         n = len(self.ptypes)
         conv = {"int": "asInt?", "bool": "asBool?", "arr": "asArr?", "barr": "asBArr?", "opt_arr": "asOptArr?",
-                "arr2": "asArr2?", "opt_int": "asOptInt?"}
+                "arr2": "asArr2?", "opt_int": "asOptInt?", "oarr": "asOptArr?"}
         mk = {"int": "Val.int", "bool": "Val.bool", "arr": "Val.arr", "barr": "Val.barr", "arr2": "Val.arr2"}
         pats = ", ".join(f"a{k}" for k in range(n))
         scrut = ", ".join(f"a{k}.{conv[t]}" for k, t in enumerate(self.ptypes))
         somes = ", ".join(f"some x{k}" for k in range(n))
         args = " ".join(f"x{k}" for k in range(n)) + (" fuel" if self.has_fuel else "")
+        def mkv(t, e):
+            return f"(match {e} with | some a => Val.arr a | none => Val.none)" if t == "oarr" else f"{mk[t]} {e}"
         if len(self.ret_types) == 1:
-            out = f"{mk[self.ret_types[0]]} r"
+            out = mkv(self.ret_types[0], "r")
         else:
             proj = []
             for k, t in enumerate(self.ret_types):
                 path = ".2" * k + (".1" if k < len(self.ret_types) - 1 else "")
-                proj.append(f"{mk[t]} r{path}")
+                proj.append(mkv(t, f"r{path}"))
             out = "Val.tup [" + ", ".join(proj) + "]"
         wild = ", ".join("_" for _ in range(n))
         return (f"  | {lean_str(self.name)}, [{pats}] =>\n    match {scrut} with\n    | {somes} =>\n"
@@ -1122,6 +1250,7 @@ def translate_all(repo):
     tree = ast.parse((Path(repo) / SRC).read_text())
     fns = {n.name: n for n in tree.body if isinstance(n, ast.FunctionDef)}
     done, failed = [], []
+    TRANSLATED.clear()
     for name, ptypes in WHITELIST:
         try:
             if name not in fns:
@@ -1131,6 +1260,7 @@ def translate_all(repo):
             k = Kernel(fns[name], ptypes)
             text = k.translate()
             done.append((k, text))
+            TRANSLATED[name] = k
         except Unsupported as e:
             failed.append((name, str(e)))
     L = ["-- generated by tools/translate.py (tools/translate_njit.py) from " + SRC + "; do not edit",
